@@ -287,6 +287,14 @@ Proof.
   - destruct (parse_objects _ _ _ _); [discriminate|]. destruct root; discriminate.
 Qed.
 
+(* totality, for ALL abstract files: the loader logic always answers, and the answer is a rejection
+   or a loaded context ([outcome] has no panic constructor: see the audit of panic sites in Model/Loader.v) *)
+Theorem load_total p : load p <> OutFuel /\ (load p = Rejected \/ exists c r, load p = Loaded c r).
+Proof.
+  split; [apply load_no_fuel|]. pose proof (load_no_fuel p) as NF.
+  destruct (load p) as [| |c r]; [left; reflexivity | congruence | right; exists c, r; reflexivity].
+Qed.
+
 (* the number of loop iterations is bounded by the number of distinct offsets of the file (+1):
    any fuel above it yields the same answer as the fuel [load] uses *)
 Theorem load_fuel_indep p k : load_fuel (S (S (len (p_file p))) + k) p = load p.
